@@ -46,6 +46,7 @@ def initHeap (objs : List ObjSpec) : Cell → Val := fun (id, f) =>
   | some o => match f with
     | .coords => .coords o.coords
     | .pre => .table (initTable o)
+    | .point => .ptr 0
   | none => .coords (0, 0, 0)
 
 def parseOp (info : Nat → ObjInfo) (t : String) : Option P :=
@@ -90,6 +91,7 @@ def showOut : Res Out → String
   | .ok (.pt p) => CurveWire.showRaw p
   | .ok (.obj id) => s!"o{id}"
   | .ok (.state c t) => s!"s{c.1},{c.2.1},{c.2.2}/{showTable t}"
+  | .ok (.pair a b) => s!"p{a},{b}"
 
 def showResult (t : Thread Cell Val (Res Out)) : String :=
   match t.prog with
